@@ -4,6 +4,7 @@ checked offline by tools/vtcheck (trace equality, trace taint, access audit, cov
 unit keys: prop ("C09" | "C11"), shards (int)
 """
 import json, os, re, subprocess, time, concurrent.futures
+import buildtags
 
 REPO = os.environ.get("VERIF_REPO", "/repo")
 ROUTINES = r"sm4\.(sealAsm|openAsm|expandKeyAsm|cryptoBlockAsm(X[0-9]+)?|gHashBlocks|copyAsm|needExpand)\.abi0$"
@@ -36,33 +37,33 @@ def run(out, unit, tier, seed, workdir, overlay):
         out.inconclusive.append("vtrace: cannot build tools: %s" % e)
         return
     binp = os.path.join(workdir, "vt_sm4.test")
-    p = subprocess.run(["go", "test", "-c", "-vet=off", "-tags", "verif", "-overlay", overlay, "-o", binp, "./sm4/"], cwd=REPO, env=go_env(), capture_output=True, text=True)
-    if p.returncode != 0:
-        # declarations of sealAsm/openAsm/copyAsm/needExpand differ from the ones called directly: stub the adapters out
-        p2 = subprocess.run(["go", "test", "-c", "-vet=off", "-tags", "verif,verifnoasm", "-overlay", overlay, "-o", binp, "./sm4/"], cwd=REPO, env=go_env(), capture_output=True, text=True)
-        if p2.returncode == 0:
-            out.notes.setdefault("degraded_builds", []).append("engine_vtrace: test binary built with tag verifnoasm (direct calls of sealAsm/openAsm/copyAsm/needExpand unavailable on this tree)")
-            p = p2
+    p = buildtags.build_sm4(binp, overlay, REPO, go_env(), out, "engine_vtrace")
     if p.returncode != 0 or not os.path.exists(binp):
         out.inconclusive.append("vtrace: build failed: " + (p.stdout + p.stderr)[-800:])
         return
     nm = subprocess.run(["go", "tool", "nm", "-n", "-size", binp], env=go_env(), capture_output=True, text=True).stdout
     bps, lo, hi = [], None, 0
     mark = None
+    found = set()
     for line in nm.splitlines():
         f = line.split()
         if len(f) < 4:
             continue
         addr, size, name = int(f[0], 16), int(f[1]), f[3]
         if re.search(ROUTINES, name):
+            found.add(re.search(ROUTINES, name).group(1))
             bps.append("%x:s" % addr)
             lo = addr if lo is None else min(lo, addr)
             hi = max(hi, addr + size)
         elif name.endswith("/sm4.vtMark"):
             mark = addr
-    if mark is None or len(bps) < 10:
-        out.inconclusive.append("vtrace: symbols not found in the test binary (routines=%d, marker=%s)" % (len(bps), mark))
+    # the routines every tree must have; helpers (copyAsm, needExpand, gHashBlocks ...) may be merged away or replaced by Go
+    # code by a refactoring - what is not there is not traced, and the evidence says so
+    essential = {"sealAsm", "openAsm", "expandKeyAsm", "cryptoBlockAsm"}
+    if mark is None or not essential <= found:
+        out.inconclusive.append("vtrace: symbols not found in the test binary (routines=%s, marker=%s)" % (sorted(found), mark))
         return
+    out.notes["vtrace_routines_in_binary"] = sorted(found)
     bps.append("%x:m" % mark)
     dis = os.path.join(workdir, "vt_sm4.dis")
     with open(dis, "w") as f:
